@@ -1145,7 +1145,7 @@ impl Expression {
                     })?;
                     ident
                 };
-                write!(value, "{ident}?{ident}:", ident = ident)?;
+                write!(value, "{ident}!=null?{ident}:", ident = ident)?;
                 y.to_proc_gen_rec_and_end_path(w, scopes, ExpressionLevel::Cond, path_calc, value)?;
                 PathAnalysisState::NotInPath
             }
@@ -1200,7 +1200,7 @@ impl Expression {
         scopes: &Vec<ScopeVar>,
     ) -> Result<ExpressionProcGen, TmplError> {
         let mut value = String::new();
-        let level = ExpressionLevel::from_expression(self);
+        let level = proc_gen_expression_level(self);
         let (pas, sub_p) =
             self.to_proc_gen_rec_and_combine_paths(w, scopes, ExpressionLevel::Cond, &mut value)?;
         Ok(ExpressionProcGen {
